@@ -79,7 +79,7 @@ Definition before_07ff912 := {| fx_atomic := false; fx_byns := true; fx_types :=
 Definition before_9f6d850 := {| fx_atomic := true; fx_byns := false; fx_types := true; fx_idents := true; fx_binds := true |}.
 Definition before_2ea7be8 := {| fx_atomic := true; fx_byns := true; fx_types := false; fx_idents := true; fx_binds := true |}.
 Definition before_b3c50c0 := {| fx_atomic := true; fx_byns := true; fx_types := true; fx_idents := false; fx_binds := true |}.
-Definition before_import_reset := {| fx_atomic := true; fx_byns := true; fx_types := true; fx_idents := true; fx_binds := false |}.
+Definition before_45df602 := {| fx_atomic := true; fx_byns := true; fx_types := true; fx_idents := true; fx_binds := false |}.
 
 (* module a (id 1); module c in revisions 1 and 2 (ids 2, 3); a imports c *)
 Definition wA := mk 1 KMod 97 [] 97 None [10] [(99, None)] [] [].
@@ -98,7 +98,7 @@ Theorem C18_partial_text_refuted :
   exists ops, hist before_07ff912 ops <> ref before_07ff912 ops /\ hist pinned ops <> ref pinned ops.
 Proof. exists [Load (Items [Good wG; Bad [13]]); Proc]. split; intros H; vm_compute in H; discriminate H. Qed.
 
-(* byNS is never invalidated: the answer given before the second module arrived is repeated *)
+(* D55: byNS is never invalidated: the answer given before the second module arrived is repeated *)
 Theorem C18_byns_refuted :
   exists ops, no_partial [] ops /\ hist before_9f6d850 ops <> ref before_9f6d850 ops /\ hist pinned ops <> ref pinned ops.
 Proof.
@@ -106,7 +106,7 @@ Proof.
   split; intros H; vm_compute in H; discriminate H.
 Qed.
 
-(* resolved types are kept: after the newer revision has arrived they are still those of the older one *)
+(* D56: resolved types are kept: after the newer revision has arrived they are still those of the older one *)
 Theorem C18_type_memo_refuted :
   exists ops, no_partial [] ops /\ hist before_2ea7be8 ops <> ref before_2ea7be8 ops /\ hist pinned ops <> ref pinned ops.
 Proof.
@@ -114,7 +114,7 @@ Proof.
   split; intros H; vm_compute in H; discriminate H.
 Qed.
 
-(* the identity dictionary is never cleared: identities of a superseded submodule revision stay *)
+(* D57: the identity dictionary is never cleared: identities of a superseded submodule revision stay *)
 Theorem C18_identity_dict_refuted :
   exists ops, no_partial [] ops /\ hist before_b3c50c0 ops <> ref before_b3c50c0 ops /\ hist pinned ops <> ref pinned ops.
 Proof.
@@ -122,9 +122,9 @@ Proof.
   split; intros H; vm_compute in H; discriminate H.
 Qed.
 
-(* Import.Module of a module that include() no longer reaches keeps the binding of an earlier run *)
+(* D62: Import.Module of a module that include() no longer reaches keeps the binding of an earlier run *)
 Theorem C18_import_memo_refuted :
-  exists ops, no_partial [] ops /\ hist before_import_reset ops <> ref before_import_reset ops /\ hist pinned ops <> ref pinned ops.
+  exists ops, no_partial [] ops /\ hist before_45df602 ops <> ref before_45df602 ops /\ hist pinned ops <> ref pinned ops.
 Proof.
   exists [L wM; L wG; L wS1; Proc; L wS2; Proc]. split; [vm_compute; tauto|].
   split; intros H; vm_compute in H; discriminate H.
